@@ -19,13 +19,16 @@ def main(run):
 
 
 def replay(run, path):
-    j = json.load(open(path))
-    rp = j.get("replay") or {}
+    """also the replay of the T06 / T07 stage inside C19 and of ./check T08 (run.prop is the host then): common.replay_begin"""
+    j, rp = replay_load(path)
+    if "theorem_file" in rp and "world" not in rp:
+        return replay_theorem(run, path, j, rp)
     print(j.get("what"))
     w = rp.get("world")
-    if not w:
-        print(json.dumps(j, indent=1, ensure_ascii=False)[:6000])
-        return 0
+    if not (isinstance(w, dict) and "journal" in w and "mode" in w):
+        return replay_print(j)
+    corr_build("T06")
+    corr_build("T07")
     print(json.dumps({k: v for k, v in w.items() if k not in ("journal", "prices")}, ensure_ascii=False))
     print("configuration file:\n%s" % rp.get("config_file"))
     print("journal:\n%s" % w["journal"])
@@ -44,11 +47,9 @@ def replay(run, path):
     for f, c in ws[0]["impl"]["files"].items():
         print("file %s:\n%s" % (f, c))
     for what, rep, found in run.violations:
-        print("REPRODUCED: %s%s" % (what, "" if found else " (no failing input: correspondence only)"))
         if rep.get("model_stdout") is not None:
             print("model standard output now:\n%s" % rep["model_stdout"])
         for f, c in (rep.get("model_files") or {}).items():
             print("model file %s:\n%s" % (f, c))
-    if not run.violations:
-        print("not reproduced: binary and model agree and the oracles are clean now (%s)" % {k: st[k] for k in ("compared_ok", "outside_domain")})
-    return 1 if run.violations else 0
+    return replay_verdict(run, path, j, "whole-run stage: the binary's output is the model's and the oracles are clean now (%s)"
+                          % {k: st[k] for k in ("compared_ok", "outside_domain")})
